@@ -80,6 +80,21 @@ func runC17(e *Env) error {
 		{"in-spaceless", "{% spaceless %}<a> {{ x|nosuchfilter }} </a>{% endspaceless %}", true},
 		{"in-apply", "{% apply upper %}{{ nosuchfn() }}{% endapply %}", true},
 		{"index-out-of-range", "{{ xs[9] }}", true},
+		// the failure does not depend on there being something to work on: empty bodies, empty subjects, empty sequences
+		{"apply-empty-body-unknown-filter", "a{% apply nosuchfilter %}{% endapply %}b", true},
+		{"apply-body-renders-nothing-unknown-filter", "a{% apply nosuchfilter %}{% if false %}x{% endif %}{{ '' }}{% endapply %}b", true},
+		{"apply-empty-body-failing-argument", "a{% apply default(nosuchfn()) %}{% endapply %}b", true},
+		{"apply-empty-body-inner-unknown-filter", "a{% apply upper|nosuchfilter %}{% endapply %}b", true},
+		{"empty-string-unknown-filter", "a{{ ''|nosuchfilter }}b", true},
+		{"null-unknown-filter", "a{{ null|nosuchfilter }}{{ undefinedvar|nosuchfilter }}b", true},
+		{"empty-list-unknown-filter", "a{{ []|nosuchfilter|length }}b", true},
+		{"empty-sequence-unknown-filter-in-for", "a{% for i in []|nosuchfilter %}x{% else %}e{% endfor %}b", true},
+		{"empty-string-failing-argument", "a{{ ''|upper(nosuchfn()) }}{{ ''|default(nosuchfn()) }}b", true},
+		{"set-empty-unknown-filter", "a{% set q = ''|nosuchfilter %}b", true},
+		{"spaceless-empty-unknown-filter", "a{% spaceless %}{{ ''|nosuchfilter }}{% endspaceless %}b", true},
+		{"empty-loop-body-failing-sequence", "a{% for i in nosuchfn() %}{% endfor %}b", true},
+		{"if-empty-branches-failing-condition", "a{% if nosuchfn() %}{% else %}{% endif %}b", true},
+		{"unknown-test-on-null", "a{{ null is nosuchtest ? '' : '' }}b", true},
 		// a library that fails while it is being imported: every top-level statement form, both import forms
 		{"import-lib-print-fails", "{% import 'libprint' as m %}x", true},
 		{"from-lib-print-fails", "{% from 'libprint' import ok %}x", true},
